@@ -4,9 +4,15 @@
 //!   hist <op> ; <op> ; ...        deterministic task-level histories (paused clock, gates)
 //!     op ::= sp <a> <name|-> <kind> <ps>   spawn actor <a> under name index <name> (or anonymous);
 //!                                          kind = ok | fail | park | remote | remotepark ; ps=1: post_stop parks
+//!                                          tlok | tlfail | tlpark = the same three through the thread-local API
+//!                                          (`ThreadLocalActor::spawn` on a `ThreadLocalActorSpawner`: the cell is
+//!                                          built and enrolled by `ActorCell::new_thread_local` on the calling task,
+//!                                          the lifecycle runs on the spawner's OS thread)
 //!          | go <a> ok|fail                let a parked pre_start return Ok / Err
-//!          | stop <a> | kill <a> | err <a> | panic <a>   the actor begins to stop (stop(), kill(), a handler
-//!                                          that returns Err / panics)
+//!          | stop <a> | kill <a> | err <a> | panic <a> | drain <a>   the actor begins to stop (stop(), kill(),
+//!                                          a handler that returns Err / panics, drain() with an empty queue)
+//!          | ldrain <a>                    a LATE drain(): on an actor that has already begun to stop (parked in
+//!                                          post_stop, or stopped) — must not have any effect on the registries
 //!          | rel <a>                       let the parked post_stop return
 //!          | wait <a>                      spawn a task awaiting a.wait(None)
 //!          | wh <name>                     registry::where_is
@@ -22,13 +28,16 @@
 //!     output: (history, results) as for `hist`
 //!   race <k> <rounds>            k OS threads spawn the same fresh name at the same time (shared
 //!                                multi-thread runtime); output: list of (k, ok, already, other, where_winner, respawn_ok)
+//!   racetl <k> <rounds>          the same, every odd thread spawning through the thread-local API
 //!   hammer <threads> <names> <iters>   threads loop spawn(name)/lookup/stop/wait/lookup on a few names;
 //!                                output: (spawn_ok, already, live_not_found, found_after_wait, other)
+//!   hammertl <threads> <names> <iters> the same, every odd thread spawning through the thread-local API
 use std::collections::HashMap;
-use std::sync::atomic::{AtomicU64, Ordering};
+use std::sync::atomic::{AtomicBool, AtomicU64, Ordering};
 use std::sync::{Arc, Barrier, Mutex};
 use std::time::Duration;
 
+use ractor::thread_local::{ThreadLocalActor, ThreadLocalActorSpawner};
 use ractor::{
     registry, Actor, ActorCell, ActorId, ActorProcessingErr, ActorRef, ActorRuntime, ActorStatus, SpawnErr,
     SupervisionEvent,
@@ -58,8 +67,12 @@ struct Cfg {
     pre_ok: Arc<Mutex<bool>>,
     ps_gate: Option<Gate>,
     slot: Arc<Mutex<Option<ActorCell>>>,
+    ps_entered: Arc<AtomicBool>,
 }
 
+// (Default: the same actor is also spawned through ractor's blanket
+// `impl<T: Actor + Default> ThreadLocalActor for T`)
+#[derive(Default)]
 struct H;
 impl Actor for H {
     type Msg = ();
@@ -84,6 +97,7 @@ impl Actor for H {
         }
     }
     async fn post_stop(&self, _: ActorRef<()>, cfg: &mut Cfg) -> Result<(), ActorProcessingErr> {
+        cfg.ps_entered.store(true, Ordering::SeqCst);
         if let Some(g) = &cfg.ps_gate {
             g.pass().await;
         }
@@ -108,6 +122,21 @@ async fn settle() {
     tokio::time::sleep(Duration::from_nanos(1)).await;
 }
 
+/// State-based wait for something that happens on a spawner's OS thread (thread-local actors are not
+/// covered by the paused-clock barrier). The bound only guards against a hang: its expiry ends the
+/// process with exit code 2 (infrastructure failure), it never decides a verdict.
+async fn until(what: &str, mut f: impl FnMut() -> bool) {
+    let t0 = std::time::Instant::now();
+    while !f() {
+        tokio::task::yield_now().await;
+        std::thread::sleep(Duration::from_micros(20));
+        if t0.elapsed() > Duration::from_secs(120) {
+            eprintln!("eng_reg: bounded wait expired ({what}); infrastructure failure, no verdict");
+            std::process::exit(2);
+        }
+    }
+}
+
 fn cls(s: ActorStatus) -> &'static str {
     match s {
         ActorStatus::Stopping => "SStopping",
@@ -124,6 +153,13 @@ struct Slot {
     result: Arc<Mutex<Option<&'static str>>>,
     name: Option<u64>,
     remote: bool,
+    /// thread-local actor: its lifecycle runs on the spawner's thread
+    tl: bool,
+    /// post_stop has been entered
+    ps_entered: Arc<AtomicBool>,
+    /// thread-local only: the spawn failed, or the actor's JoinHandle has completed
+    done: Arc<AtomicBool>,
+    ps: bool,
 }
 
 async fn run_hist(rest: &str) -> String {
@@ -135,6 +171,8 @@ async fn run_hist(rest: &str) -> String {
     let mut slots: HashMap<u64, Slot> = HashMap::new();
     let mut order: Vec<u64> = Vec::new();
     let mut tasks: Vec<tokio::task::JoinHandle<()>> = Vec::new();
+    // one spawner (one OS thread) for all thread-local actors of the scenario, created on demand
+    let mut spawner: Option<ThreadLocalActorSpawner> = None;
 
     let find = |slots: &HashMap<u64, Slot>, id: ActorId| -> Option<u64> {
         slots
@@ -159,6 +197,8 @@ async fn run_hist(rest: &str) -> String {
                 let kind = w[3];
                 let ps = w[4] == "1";
                 let remote = kind.starts_with("remote");
+                let tl = kind.starts_with("tl");
+                let kind = kind.strip_prefix("tl").unwrap_or(kind);
                 let slot = Slot {
                     cell: Arc::new(Mutex::new(None)),
                     pre_gate: Gate::new(),
@@ -167,30 +207,54 @@ async fn run_hist(rest: &str) -> String {
                     result: Arc::new(Mutex::new(None)),
                     name,
                     remote,
+                    tl,
+                    ps_entered: Arc::new(AtomicBool::new(false)),
+                    done: Arc::new(AtomicBool::new(false)),
+                    ps,
                 };
                 let cfg = Cfg {
                     pre_gate: matches!(kind, "park" | "remotepark").then(|| slot.pre_gate.clone()),
                     pre_ok: slot.pre_ok.clone(),
                     ps_gate: ps.then(|| slot.ps_gate.clone()),
                     slot: slot.cell.clone(),
+                    ps_entered: slot.ps_entered.clone(),
                 };
                 let res = slot.result.clone();
+                let done = slot.done.clone();
                 let full = name.map(nm);
                 let supc = sup.get_cell();
+                let sp = tl.then(|| spawner.get_or_insert_with(ThreadLocalActorSpawner::new).clone());
                 tasks.push(tokio::spawn(async move {
                     let r = if remote {
                         ActorRuntime::<H>::spawn_linked_remote(full, H, ActorId::Remote { node_id: 9, pid: 1000 + a }, cfg, supc).await
+                    } else if let Some(sp) = sp {
+                        <H as ThreadLocalActor>::spawn(full, cfg, sp).await
                     } else {
                         Actor::spawn(full, H, cfg).await
                     };
-                    *res.lock().unwrap() = Some(match r {
-                        Ok(_) => "Ok",
-                        Err(SpawnErr::ActorAlreadyRegistered(_)) => "AlreadyRegistered",
-                        Err(SpawnErr::StartupFailed(_)) => "StartupFailed",
-                        Err(_) => "Other",
-                    });
+                    let (txt, handle) = match r {
+                        Ok((_, h)) => ("Ok", Some(h)),
+                        Err(SpawnErr::ActorAlreadyRegistered(_)) => ("AlreadyRegistered", None),
+                        Err(SpawnErr::StartupFailed(_)) => ("StartupFailed", None),
+                        Err(_) => ("Other", None),
+                    };
+                    *res.lock().unwrap() = Some(txt);
+                    if tl {
+                        // the JoinHandle completes after the exit (status Stopped, waiters notified)
+                        if let Some(h) = handle {
+                            let _ = h.await;
+                        }
+                        done.store(true, Ordering::SeqCst);
+                    }
                 }));
                 settle().await;
+                if tl {
+                    // enrolled (or rejected) on this task already; the start runs on the spawner's thread:
+                    // wait for its outcome, or — parked start — for pre_start to have been entered
+                    let (r2, c2) = (slot.result.clone(), slot.cell.clone());
+                    until("thread-local start", || r2.lock().unwrap().is_some() || (kind == "park" && c2.lock().unwrap().is_some())).await;
+                    settle().await;
+                }
                 let already = *slot.result.lock().unwrap() == Some("AlreadyRegistered");
                 let mut h = hist.lock().unwrap();
                 h.push(format!("ESpawn {a} {} {} {}", name_term(name), coq_bool(remote), coq_bool(!already)));
@@ -214,8 +278,18 @@ async fn run_hist(rest: &str) -> String {
                     hist.lock().unwrap().push(format!("EBegin {a}"));
                 }
                 s.pre_gate.open();
+                if s.tl {
+                    let r2 = s.result.clone();
+                    until("thread-local go", || r2.lock().unwrap().is_some()).await;
+                }
             }
-            "stop" | "kill" | "err" | "panic" => {
+            "ldrain" => {
+                // drain() on an actor that has already begun to stop: no event of its own
+                let a: u64 = w[1].parse().unwrap();
+                let Some(c) = slots[&a].cell.lock().unwrap().clone() else { continue };
+                let _ = c.drain();
+            }
+            "stop" | "kill" | "err" | "panic" | "drain" => {
                 let a: u64 = w[1].parse().unwrap();
                 // (no cell = the spawn failed although the scenario expected it to succeed: the
                 // divergence is already in the history; ignore operations on that actor)
@@ -224,6 +298,9 @@ async fn run_hist(rest: &str) -> String {
                 match w[0] {
                     "stop" => c.stop(None),
                     "kill" => c.kill(),
+                    "drain" => {
+                        let _ = c.drain();
+                    }
                     k => {
                         // the (only) message makes the handler fail: Err when pre_ok is set, panic otherwise
                         *slots[&a].pre_ok.lock().unwrap() = k == "err";
@@ -231,10 +308,21 @@ async fn run_hist(rest: &str) -> String {
                         let _ = r.cast(());
                     }
                 }
+                let s = &slots[&a];
+                if s.tl {
+                    // exited, or parked in post_stop (stop / drain of an actor with ps=1)
+                    let (d, pe, ps) = (s.done.clone(), s.ps_entered.clone(), s.ps);
+                    until("thread-local exit", || d.load(Ordering::SeqCst) || (ps && pe.load(Ordering::SeqCst))).await;
+                }
             }
             "rel" => {
                 let a: u64 = w[1].parse().unwrap();
-                slots[&a].ps_gate.open();
+                let s = &slots[&a];
+                s.ps_gate.open();
+                if s.tl && s.ps_entered.load(Ordering::SeqCst) {
+                    let d = s.done.clone();
+                    until("thread-local post_stop release", || d.load(Ordering::SeqCst)).await;
+                }
             }
             "wait" => {
                 let a: u64 = w[1].parse().unwrap();
@@ -287,6 +375,13 @@ async fn run_hist(rest: &str) -> String {
         let _ = (s.name, s.remote);
     }
     settle().await;
+    for s in slots.values() {
+        if s.tl {
+            let d = s.done.clone();
+            until("thread-local tidy up", || d.load(Ordering::SeqCst)).await;
+        }
+    }
+    drop(spawner);
     sup.stop(None);
     for t in tasks {
         t.abort();
@@ -428,7 +523,7 @@ mod thr {
                         ROLE.with(|r| r.set(Some(a)));
                         let rt = tokio::runtime::Builder::new_current_thread().enable_time().build().expect("rt");
                         rt.block_on(async move {
-                            let cfg = Cfg { pre_gate: None, pre_ok: Arc::new(Mutex::new(true)), ps_gate: None, slot: slot2 };
+                            let cfg = Cfg { pre_gate: None, pre_ok: Arc::new(Mutex::new(true)), ps_gate: None, slot: slot2, ps_entered: Default::default() };
                             match Actor::spawn(Some(name), H, cfg).await {
                                 Ok((r, handle)) => {
                                     c2.push(a, Ev::Spawned("Ok"));
@@ -568,6 +663,7 @@ mod thr {
     }
 }
 
+#[derive(Default)]
 struct Plain;
 impl Actor for Plain {
     type Msg = ();
@@ -578,21 +674,28 @@ impl Actor for Plain {
     }
 }
 
-fn run_race(rt: &tokio::runtime::Runtime, k: usize, rounds: usize) -> String {
+/// `tl`: every odd thread spawns through the thread-local API (same registration code in
+/// `ActorCell::new_thread_local`, executed on the calling thread)
+fn run_race(rt: &tokio::runtime::Runtime, k: usize, rounds: usize, tl: bool) -> String {
     let pid = std::process::id();
     let mut out = Vec::new();
+    let spawner = tl.then(ThreadLocalActorSpawner::new);
     for _ in 0..rounds {
         let sid = SCN.fetch_add(1, Ordering::SeqCst);
         let name = format!("c10r-{pid}-{sid}");
         let barrier = Arc::new(Barrier::new(k));
         let mut hs = Vec::new();
-        for _ in 0..k {
+        for i in 0..k {
             let b = barrier.clone();
             let h = rt.handle().clone();
             let n = name.clone();
+            let sp = if i % 2 == 1 { spawner.clone() } else { None };
             hs.push(std::thread::spawn(move || {
                 b.wait();
-                h.block_on(Actor::spawn(Some(n), Plain, ()))
+                match sp {
+                    Some(sp) => h.block_on(<Plain as ThreadLocalActor>::spawn(Some(n), (), sp)),
+                    None => h.block_on(Actor::spawn(Some(n), Plain, ())),
+                }
             }));
         }
         let mut winners: Vec<ActorRef<()>> = Vec::new();
@@ -638,7 +741,8 @@ fn run_race(rt: &tokio::runtime::Runtime, k: usize, rounds: usize) -> String {
     coq_list(&out)
 }
 
-fn run_hammer(rt: &tokio::runtime::Runtime, threads: usize, names: usize, iters: usize) -> String {
+fn run_hammer(rt: &tokio::runtime::Runtime, threads: usize, names: usize, iters: usize, tl: bool) -> String {
+    let spawner = tl.then(ThreadLocalActorSpawner::new);
     let pid = std::process::id();
     let sid = SCN.fetch_add(1, Ordering::SeqCst);
     let counts = Arc::new([AtomicU64::new(0), AtomicU64::new(0), AtomicU64::new(0), AtomicU64::new(0), AtomicU64::new(0)]);
@@ -648,6 +752,7 @@ fn run_hammer(rt: &tokio::runtime::Runtime, threads: usize, names: usize, iters:
         let h = rt.handle().clone();
         let c = counts.clone();
         let b = barrier.clone();
+        let sp = if t % 2 == 1 { spawner.clone() } else { None };
         hs.push(std::thread::spawn(move || {
             b.wait();
             let mut x = (t as u64 + 1).wrapping_mul(0x9E3779B97F4A7C15);
@@ -656,7 +761,11 @@ fn run_hammer(rt: &tokio::runtime::Runtime, threads: usize, names: usize, iters:
                 x ^= x >> 7;
                 x ^= x << 17;
                 let name = format!("c10h-{pid}-{sid}-{}", x as usize % names);
-                match h.block_on(Actor::spawn(Some(name.clone()), Plain, ())) {
+                let spawned = match &sp {
+                    Some(sp) => h.block_on(<Plain as ThreadLocalActor>::spawn(Some(name.clone()), (), sp.clone())),
+                    None => h.block_on(Actor::spawn(Some(name.clone()), Plain, ())),
+                };
+                match spawned {
                     Ok((r, _)) => {
                         c[0].fetch_add(1, Ordering::Relaxed);
                         // I am the live holder: every lookup must find me
@@ -727,15 +836,15 @@ fn main() {
                 out.push(rt.block_on(run_hist(rest)));
             }
             "thr" => out.push(thr::run(rest)),
-            "race" | "hammer" => {
+            "race" | "hammer" | "racetl" | "hammertl" => {
                 let rt = mt.get_or_insert_with(|| {
                     tokio::runtime::Builder::new_multi_thread().worker_threads(4).enable_time().build().expect("mt runtime")
                 });
                 let w: Vec<usize> = rest.split_whitespace().map(|x| x.parse().unwrap()).collect();
-                if head == "race" {
-                    out.push(run_race(rt, w[0], w[1]));
+                if head.starts_with("race") {
+                    out.push(run_race(rt, w[0], w[1], head == "racetl"));
                 } else {
-                    out.push(run_hammer(rt, w[0], w[1], w[2]));
+                    out.push(run_hammer(rt, w[0], w[1], w[2], head == "hammertl"));
                 }
             }
             o => panic!("unknown case {o}"),
